@@ -39,6 +39,16 @@ def run(ctx):
                 samples.append({"threads": d["threads"], "events_in_round": d["events"], "counters_at_join": d["counters"]})
             if d["oracle"] != "ok":
                 ctx.violations.append({"what": "C15 oracle at a quiescent point: " + d["oracle"], "input": {"threads": d["threads"], "round": d["round"], "seed": ctx.seed + threads}})
+    # thousands of very short rounds with a scraper racing the last recordings of each round
+    out = C.run_harness(ctx, bins["metrics"], ["--mode", "scraperace", "--seed", ctx.seed, "--rounds", 6000 if ctx.tier == "quick" else 150000])
+    for l in out.splitlines():
+        if l.startswith("{"):
+            d = json.loads(l)
+            points += d["rounds"]
+            total_events += d["events"]
+            if d["oracle"] != "ok":
+                ctx.violations.append({"what": "C15: " + d["oracle"][4:], "input": {"harness": "metrics --mode scraperace", "seed": ctx.seed, "rounds": d["rounds"],
+                                       "history": "3 recorder threads record 1..3 events each per round while one thread calls export_prometheus() all the time; recorders joined, then /metrics is read"}})
     ctx.coverage.update({
         "evaluations": total_events,
         "distinct_nontrivial": points,
